@@ -1,5 +1,6 @@
 """C15 JSON codec — structural obligations."""
 import ast
+import re
 
 from sa.loader import AnalysisError, norm, walk_local
 from sa.cfg import cfg_of
@@ -83,7 +84,10 @@ def run(ctx):
     ok = all(any("MapKeyMarker" in norm(n) for n in walk_local(m.node)) for m in (encJ.methods["write_utf8"], decJ.methods["read_utf8"]))
     ctx.check("C15.R2", "map keys: both write_utf8 and read_utf8 treat a String followed by MapKeyMarker as an object key", ok, decJ.methods["read_utf8"].where(), "MapKeyMarker handling", "map keys are not handled symmetrically")
     ie, ia = advanced(encJ.methods["end_item"]), advanced(decJ.methods["iter_array"])
-    ctx.check("C15.R2", "array items: ItemEnd advanced after each item on both sides", ie == ["ItemEnd"] and "ItemEnd" in ia, decJ.methods["iter_array"].where(), f"end_item advances {ie}, iter_array advances {ia}", "item boundaries are not advanced symmetrically")
+    if not ia and not any(isinstance(n, (ast.Yield, ast.YieldFrom)) for n in walk_local(decJ.methods["iter_array"].node)):
+        ctx.unrecognised("C15.R2", "array items: ItemEnd advanced after each item on both sides", decJ.methods["iter_array"].where(), "iter_array is no longer a generator that advances the parser itself (the iteration is delegated to an object this rule does not follow)")
+    else:
+        ctx.check("C15.R2", "array items: ItemEnd advanced after each item on both sides", ie == ["ItemEnd"] and "ItemEnd" in ia, decJ.methods["iter_array"].where(), f"end_item advances {ie}, iter_array advances {ia}", "item boundaries are not advanced symmetrically")
 
     # ---- R3 action exhaustiveness --------------------------------------------------------------------
     ctx.rule("C15.R3", "every Action subclass is handled by both do_action methods or popped explicitly", floor=5)
@@ -141,8 +145,23 @@ def run(ctx):
     ok = len(tests) == 1 and len(conjuncts(tests[0].test)) == 2 and "self._write_union_type" in conjuncts(tests[0].test) and bool(ne_texts(symw, "Null()") & conjuncts(tests[0].test)) and any("write_object_key(alternative_symbol.get_label(index))" in norm(s) for s in tests[0].body) and any("write_object_start" in norm(s) for s in tests[0].body) and any("UnionEnd" in norm(s) for s in tests[0].body)
     ctx.check("C15.R6", "encoder: non-null branch -> {label: value}; null stays null", ok, wi.where(), f"write_index: {norm(tests[0].test) if tests else ''}", "union values must be wrapped as {branch name: value} except null")
     ri = decJ.methods["read_index"]
-    ok = sum(1 for n in walk_local(ri.node) if isinstance(n, ast.Assign) and norm(n) == "label = 'null'") == 2 and sum(1 for n in walk_local(ri.node) if isinstance(n, ast.Call) and n.func.__class__ is ast.Attribute and n.func.attr == "popitem") == 2 and any(norm(n) == "index = alternative_symbol.labels.index(label)" for n in walk_local(ri.node) if isinstance(n, ast.Assign))
-    ctx.check("C15.R6", "decoder: None -> 'null', otherwise the single key is the branch label looked up in the alternative's labels", ok, ri.where(), "read_index", "the decoder does not unwrap {label: value} symmetrically")
+    # every binding of the label is `'null'` (under `<value> is None`) or the key popped from the wrapper object (under
+    # `<value> is not None`), however many times the two cases are spelled out
+    ricfg = cfg_of(ri)
+    lab_defs = [n for n in walk_local(ri.node) if isinstance(n, ast.Assign) and any(isinstance(x, ast.Name) and x.id == "label" and isinstance(x.ctx, ast.Store) for t in n.targets for x in ast.walk(t))]
+    def _lab_ok(n):
+        facts = true_facts(ricfg, ricfg.node_of(n))
+        if norm(n) == "label = 'null'":
+            return any(re.fullmatch(r".+ is None", x) for x in facts)
+        if isinstance(n.targets[0], ast.Tuple) and len(n.targets[0].elts) == 2 and norm(n.targets[0].elts[0]) == "label" and isinstance(n.value, ast.Call) and isinstance(n.value.func, ast.Attribute) and n.value.func.attr == "popitem" and not n.value.args:
+            return any(re.fullmatch(r".+ is not None", x) for x in facts)
+        return False
+    ok = len(lab_defs) >= 2 and all(_lab_ok(n) for n in lab_defs) and any(norm(n) == "label = 'null'" for n in lab_defs) and any(isinstance(n.targets[0], ast.Tuple) for n in lab_defs) and any(norm(n) == "index = alternative_symbol.labels.index(label)" for n in walk_local(ri.node) if isinstance(n, ast.Assign))
+    ritext = ast.unparse(ri.node)
+    if not ok and "popitem" not in ritext and "'null'" not in ritext:
+        ctx.unrecognised("C15.R6", "decoder: None -> 'null', otherwise the single key is the branch label", ri.where(), "read_index neither maps None to 'null' nor unwraps an object itself (delegated to code this rule does not follow)")
+    else:
+        ctx.check("C15.R6", "decoder: None -> 'null', otherwise the single key is the branch label looked up in the alternative's labels", ok, ri.where(), "read_index", "the decoder does not unwrap {label: value} symmetrically")
     alts = [n for n in walk_local(pp.node) if isinstance(n, ast.Call) and norm(n.func) == "Alternative" and len(n.args) >= 2 and isinstance(n.args[1], (ast.Name, ast.ListComp))]
     if len(alts) != 1:
         ctx.unrecognised("C15.R6", "Parser._parse", pp.where(), f"{len(alts)} Alternative(symbols, <labels>) constructions with computed labels")
